@@ -115,6 +115,10 @@ pub fn run_check(id: &str, tier: Tier) -> i32 {
             if parts.iter().all(|p| p.failure.is_none()) && id != "C06" {
                 parts.push(run_engine(&PairEngine { focus: Focus::Resets }, &ctx, scale(tier, 8_000, 200_000)));
             }
+            if parts.iter().all(|p| p.failure.is_none()) && id == "C06" {
+                // requests queued behind the peer's stream limit, the slots released in every way a slot can be released
+                parts.push(run_engine(&crate::eng_queue::QueueEngine, &ctx, scale(tier, 30_000, 300_000)));
+            }
             assumptions.push("the simulator's transport and executor honour the AsyncRead/AsyncWrite/Future contracts; the reference frame parser and HPACK decoder are correct".into());
         }
         "C03" => {
@@ -136,6 +140,11 @@ pub fn run_check(id: &str, tier: Tier) -> i32 {
                 // the receive side against a scripted peer: streams over the advertised limit (also while the endpoint's
                 // writes are blocked), frames for refused streams, refused identifiers opened again
                 parts.push(run_engine(&runner::Reattributed { inner: CatalogueServerEngine, from: "C09", to: "C05", label: "refusal", only: "concurrency-limit|refused-stream" }, &ctx, scale(tier, 60_000, 300_000)));
+            }
+            if id == "C05" && parts.iter().all(|p| p.failure.is_none()) {
+                // the sending side against a scripted peer that changes its limit mid-connection, also while the
+                // client's writes are blocked
+                parts.push(run_engine(&crate::eng_queue::QueueEngine, &ctx, scale(tier, 30_000, 300_000)));
             }
             if id == "C17" && parts.iter().all(|p| p.failure.is_none()) {
                 // peer resets arriving during and after a shutdown handshake (scripted peer)
@@ -175,6 +184,9 @@ pub fn run_check(id: &str, tier: Tier) -> i32 {
             }
             if parts.iter().all(|p| p.failure.is_none()) {
                 parts.push(run_engine(&CapEngine, &ctx, scale(tier, 4_000, 100_000)));
+            }
+            if parts.iter().all(|p| p.failure.is_none()) {
+                parts.push(run_engine(&crate::eng_queue::QueueEngine, &ctx, scale(tier, 4_000, 100_000)));
             }
             for f in [Focus::Resets, Focus::Faults] {
                 if parts.iter().all(|p| p.failure.is_none()) {
@@ -266,9 +278,11 @@ pub fn run_check(id: &str, tier: Tier) -> i32 {
 /// (engine, libFuzzer runs) per property for the thorough tier
 fn fuzz_plan(id: &str) -> Vec<(&'static str, u64)> {
     match id {
-        "C01" | "C02" | "C04" | "C06" => vec![("pair-coop", 150_000)],
+        "C01" | "C02" | "C04" => vec![("pair-coop", 150_000)],
+        "C06" => vec![("pair-coop", 150_000), ("raw-queue-client", 150_000)],
         "C03" => vec![("raw-flow-server", 200_000)],
-        "C05" | "C19" => vec![("pair-resets", 150_000)],
+        "C05" => vec![("pair-resets", 150_000), ("raw-queue-client", 150_000)],
+        "C19" => vec![("pair-resets", 150_000)],
         "C17" => vec![("pair-resets", 100_000), ("pair-faults", 100_000)],
         "C07" => vec![("pair-faults", 200_000)],
         "C08" => vec![("raw-soup-server", 600_000), ("raw-soup-client", 400_000)],
@@ -412,7 +426,7 @@ pub fn fuzz_seeds() -> i32 {
     crate::util::install_panic_hook();
     let root = std::path::PathBuf::from(std::env::var("VERIF_ROOT").unwrap_or_else(|_| "/verif".into()));
     let mut engines: Vec<&str> = Vec::new();
-    for id in ["C01", "C03", "C05", "C07", "C08", "C09", "C10", "C11", "C12", "C13", "C14", "C15", "C16", "C17", "C18", "C20"] {
+    for id in ["C01", "C03", "C05", "C06", "C07", "C08", "C09", "C10", "C11", "C12", "C13", "C14", "C15", "C16", "C17", "C18", "C20"] {
         for (e, _) in fuzz_plan(id) {
             if !engines.contains(&e) {
                 engines.push(e);
@@ -501,6 +515,7 @@ pub fn replay(path: &str) -> i32 {
         "raw-soup-client" => runner::replay_case(&SoupEngine { server: false }, case),
         "raw-shutdown-server" => runner::replay_case(&ShutdownEngine { server: true }, case),
         "raw-goaway-client" => runner::replay_case(&ShutdownEngine { server: false }, case),
+        "raw-queue-client" => runner::replay_case(&crate::eng_queue::QueueEngine, case),
         "raw-http-server" => runner::replay_case(&HttpEngine { server: true }, case),
         "raw-http-client" => runner::replay_case(&HttpEngine { server: false }, case),
         "pair-coop" => runner::replay_case(&PairEngine { focus: Focus::Coop }, case),
